@@ -193,8 +193,10 @@ func (p *Program) doCompile(fn *ssa.Function) *cfunc {
 				ci.t = p.tt.Of(ins.Type())
 			case *ssa.MakeInterface:
 				ci.t = p.tt.Of(ins.X.Type())
+				ci.t2 = p.tt.Of(ins.Type())
 			case *ssa.TypeAssert:
 				ci.t = p.tt.Of(ins.AssertedType)
+				ci.t2 = p.tt.Of(ins.X.Type())
 			case *ssa.FieldAddr:
 				ci.t = p.tt.Of(ins.X.Type().Underlying().(*types.Pointer).Elem())
 			case *ssa.Field:
@@ -234,9 +236,10 @@ func (p *Program) doCompile(fn *ssa.Function) *cfunc {
 				ci.aux = p.callInfo(&ins.Call)
 			case *ssa.If:
 				ci.aux = &mergeSite{}
+			case *ssa.ChangeInterface:
+				ci.t = p.tt.Of(ins.Type())
 			case *ssa.Extract:
 			case *ssa.MakeClosure:
-			case *ssa.ChangeInterface:
 			}
 			cb.instrs = append(cb.instrs, ci)
 		}
@@ -636,9 +639,19 @@ func (it *Interp) execBlock(fr *frame, cb *cblock, skipPhis bool) (int, bool) {
 		case *ssa.Call:
 			fr.env[ci.dst] = it.doCall(fr, ci, &ins.Call)
 		case *ssa.ChangeInterface:
-			fr.env[ci.dst] = it.get(fr, &ci.ops[0])
+			x := it.get(fr, &ci.ops[0]).(Iface)
+			if x.t != nil {
+				x.itab = itabOf(ci.t)
+			}
+			fr.env[ci.dst] = x
 		case *ssa.ChangeType:
-			fr.env[ci.dst] = it.get(fr, &ci.ops[0])
+			v := it.get(fr, &ci.ops[0])
+			if x, isIface := v.(Iface); isIface && x.t != nil && ci.t.kind == KIface {
+				// conversion between distinct named interface types builds a new itab
+				x.itab = itabOf(ci.t)
+				v = x
+			}
+			fr.env[ci.dst] = v
 		case *ssa.Convert:
 			fr.env[ci.dst] = it.convert(fr, ci.t2, ci.t, it.get(fr, &ci.ops[0]))
 		case *ssa.Extract:
@@ -662,7 +675,7 @@ func (it *Interp) execBlock(fr *frame, cb *cblock, skipPhis bool) (int, bool) {
 			}
 			fr.env[ci.dst] = FuncV{fn: ins.Fn.(*ssa.Function), env: env}
 		case *ssa.MakeInterface:
-			fr.env[ci.dst] = Iface{t: ci.t, v: it.get(fr, &ci.ops[0])}
+			fr.env[ci.dst] = Iface{t: ci.t, v: it.get(fr, &ci.ops[0]), itab: itabOf(ci.t2)}
 		case *ssa.MakeMap:
 			fr.env[ci.dst] = &MapObj{obj: it.newObj(8, "map"), idx: map[string]int{}, kt: ci.t.key, vt: ci.t.elem}
 		case *ssa.MakeSlice:
@@ -703,7 +716,7 @@ func (it *Interp) execBlock(fr *frame, cb *cblock, skipPhis bool) (int, bool) {
 			p := it.get(fr, &ci.ops[0]).(Ptr)
 			it.store(fr, p, it.get(fr, &ci.ops[1]), ci.t)
 		case *ssa.TypeAssert:
-			fr.env[ci.dst] = it.typeAssert(fr, ins, ci.t, it.get(fr, &ci.ops[0]).(Iface))
+			fr.env[ci.dst] = it.typeAssert(fr, ins, ci.t, ci.t2, it.get(fr, &ci.ops[0]).(Iface))
 		case *ssa.Phi:
 			panic("phi in the middle of a block")
 		case *ssa.If:
@@ -1029,18 +1042,33 @@ func (it *Interp) implementsCached(dyn, iface *TInfo) bool {
 	return r
 }
 
-func (it *Interp) typeAssert(fr *frame, ins *ssa.TypeAssert, target *TInfo, x Iface) Value {
+// itabOf: the itab identity of a static interface type (nil for the empty interface).
+func itabOf(iface *TInfo) *TInfo {
+	if iface == nil || iface.isEmptyIface {
+		return nil
+	}
+	return iface
+}
+
+func (it *Interp) typeAssert(fr *frame, ins *ssa.TypeAssert, target, static *TInfo, x Iface) Value {
 	ok := false
 	var v Value
 	if target.kind == KIface {
 		if x.t != nil && it.implementsCached(x.t, target) {
 			ok = true
+			x.itab = itabOf(target)
 			v = x
 		}
 	} else {
 		if x.t == target {
 			ok = true
 			v = x.v
+			// x.(T) on a non-empty interface compares the itab pointer: a value stored through an
+			// unsafe view under another interface type does not match
+			if x.itab != nil && itabOf(static) != nil && x.itab != itabOf(static) {
+				ok = false
+				it.note(fr, "itab-confusion", fmt.Sprintf("%s value stored as %s read as %s", target.name, x.itab.name, static.name))
+			}
 		}
 	}
 	if ins.CommaOk {
